@@ -3,6 +3,8 @@ package main
 import (
 	"encoding/json"
 	"fmt"
+	"os"
+	"path/filepath"
 	"sort"
 	"strings"
 	"time"
@@ -64,6 +66,9 @@ func c01Check(ctx *Ctx, idx int, cs coreCase) {
 		return
 	}
 	ctx.Rep.Case(key, len(cf.F.Services) >= 2)
+	doc0, _, _ := loadOp(cf.Merged.Schema, cs.Query, cs.OpName)
+	of := analyseOp(cf.Merged.Schema, doc0, op)
+	df := analyseData(cf.F.Data)
 	ctx.Rep.Count(fmt.Sprintf("services=%d", len(cf.F.Services)))
 	for _, ft := range cs.Features {
 		ctx.Rep.Count("feature:" + ft)
@@ -77,13 +82,24 @@ func c01Check(ctx *Ctx, idx int, cs coreCase) {
 		ctx.Rep.Count("gateway rejected federation")
 		return
 	}
+	// the real planner rewrites the operation's AST in place: give it its own copy
+	_, opForPlanner, _ := loadOp(cf.Merged.Schema, cs.Query, cs.OpName)
+	rp, perr := realPlan(cf, opForPlanner, cs)
+	shadow := rp != nil && planHasShadowedStitchPath(rp.RootSteps)
+	fail := func(mode, detail string, impl, model interface{}) {
+		cls := classify(of, df, shadow, mode)
+		if cls != "" {
+			pinWitness("C01", cls, full)
+		}
+		ctx.Rep.Fail(hx.Failure{Kind: "property-fails", Class: cls, Detail: detail + " [" + mode + "]", Case: full, Impl: impl, Model: model, Index: idx})
+	}
 	cf.F.ResetLogs()
 	resp := fed.Do(gw, cs.Query, cs.Vars, cs.OpName)
 	var calls []string
 	for _, c := range cf.F.AllCalls() {
 		calls = append(calls, subRequestKey(cf.F.Services[c.Service].URL, c.Query, c.Variables))
 		if c.Invalid != "" {
-			ctx.Rep.Fail(hx.Failure{Kind: "property-fails", Class: "", Detail: "a sub-request does not validate against the schema of the service it was sent to (C02): " + c.Invalid, Case: full, Impl: c.Query, Index: idx})
+			fail(failureMode(c.Invalid, nil, false), "a sub-request does not validate against the schema of the service it was sent to: "+c.Invalid, c.Query, nil)
 			return
 		}
 	}
@@ -95,13 +111,9 @@ func c01Check(ctx *Ctx, idx int, cs coreCase) {
 	if len(calls) >= 2 {
 		ctx.Rep.Count("multi-step plan")
 	}
-	// the real planner rewrites the operation's AST in place: give it its own copy
-	_, opForPlanner, _ := loadOp(cf.Merged.Schema, cs.Query, cs.OpName)
-	rp, perr := realPlan(cf, opForPlanner, cs)
 	// ---- the property: data equals the single-server answer, errors empty (modulo pruning)
 	if len(resp.Errors) > 0 || hx.Canon(prune(toGeneric(resp.Data))) != hx.Canon(prune(toGeneric(want))) {
-		ctx.Rep.Fail(hx.Failure{Kind: "property-fails", Class: coreClass(rp, cs, "wrong-data"), Detail: "gateway answer differs from the single-server answer over the merged schema",
-			Case: full, Impl: got, Model: map[string]interface{}{"reference": want}, Index: idx})
+		fail(failureMode("", got.Errors, true), "gateway answer differs from the single-server answer over the merged schema", got, map[string]interface{}{"reference": want})
 		return
 	}
 	// ---- configurations that must not change results: node-hiding merger, id-to-type hint,
@@ -115,8 +127,7 @@ func c01Check(ctx *Ctx, idx int, cs coreCase) {
 		for rep := 0; rep < alt.reps; rep++ {
 			r2 := fed.Do(gw2, cs.Query, cs.Vars, cs.OpName)
 			if len(r2.Errors) > 0 || hx.Canon(toGeneric(r2.Data)) != hx.Canon(toGeneric(resp.Data)) {
-				ctx.Rep.Fail(hx.Failure{Kind: "property-fails", Detail: "configuration " + alt.name + " changes the response", Case: full,
-					Impl: map[string]interface{}{"default": json.RawMessage(resp.Raw), alt.name: json.RawMessage(r2.Raw)}, Index: idx})
+				fail("wrong-data", "configuration "+alt.name+" changes the response", map[string]interface{}{"default": json.RawMessage(resp.Raw), alt.name: json.RawMessage(r2.Raw)}, nil)
 				return
 			}
 		}
@@ -231,16 +242,6 @@ func c01Configs(cf *coreFed, cs coreCase, idx int) []c01Alt {
 	return alts
 }
 
-// coreClass: narrow known-finding classes (input class ∧ failure mode).
-func coreClass(rp *planner.QueryPlan, cs coreCase, mode string) string {
-	if rp != nil && mode == "wrong-data" && planHasShadowedStitchPath(rp.RootSteps) {
-		// executor.FindSelection searches depth-first by response name over the whole step: a name on a
-		// stitch path that also occurs deeper and earlier resolves to the wrong field
-		return "findselection-shadow"
-	}
-	return ""
-}
-
 func displayNameOf(f *ast.Field) string {
 	if f.Alias != "" {
 		return f.Alias
@@ -331,7 +332,90 @@ func runC01(ctx *Ctx) error {
 		}
 		c01Check(ctx, 100+k, cs)
 	}
+	// one stream per feature outside the safe profile: safe + exactly that feature. A failure must
+	// fall in a documented class (input predicate ∧ failure mode); anything else is a violation.
+	per := cases / 16
+	for si, st := range coreStreams {
+		for k := 0; k < per; k++ {
+			r := ctx.Rand.Fork()
+			cs, ok := genStreamCase(r, st)
+			if !ok {
+				continue
+			}
+			ctx.Rep.Count("stream:" + st.name)
+			c01Check(ctx, 100000*(si+1)+k, cs)
+		}
+	}
 	return nil
+}
+
+type coreStream struct {
+	name     string
+	abstract bool
+	wildData func(*fed.DataOptions)
+	ops      func(*fed.OpOptions)
+}
+
+var coreStreams = []coreStream{
+	{name: "directives", ops: func(o *fed.OpOptions) { o.Directives = true }},
+	{name: "root-typename", ops: func(o *fed.OpOptions) { o.RootTypename = true }},
+	{name: "alias-helpers", ops: func(o *fed.OpOptions) { o.AliasHelpers = true }},
+	{name: "alias-collide", ops: func(o *fed.OpOptions) { o.AliasCollide = true }},
+	{name: "multi-spread", ops: func(o *fed.OpOptions) { o.MultiSpread = true }},
+	{name: "node-root", ops: func(o *fed.OpOptions) { o.NodeRoot = true }},
+	{name: "node-root-plain", ops: func(o *fed.OpOptions) { o.NodeRoot, o.NodeRootPlain = true, true }},
+	{name: "abstract", abstract: true, ops: func(o *fed.OpOptions) { o.AbstractFrags = true }},
+	{name: "var-defaults", ops: func(o *fed.OpOptions) { o.VarDefaults = true }},
+	{name: "hash-ids", wildData: func(d *fed.DataOptions) { d.IDs = fed.IDWild }},
+	{name: "null-object-elements", wildData: func(d *fed.DataOptions) { d.NullObjElems = true }},
+}
+
+func genStreamCase(r *hx.Rand, st coreStream) (coreCase, bool) {
+	rr := hx.NewRand(r.U64())
+	o := fed.DefaultGen()
+	o.Abstract = st.abstract
+	spec := fed.Generate(rr, o)
+	do := fed.DefaultData()
+	if st.wildData != nil {
+		st.wildData(&do)
+	}
+	data := fed.GenData(rr, spec, do)
+	f, err := fed.Build(spec, data)
+	if err != nil {
+		return coreCase{}, false
+	}
+	mr, err := f.Merged()
+	if err != nil {
+		return coreCase{}, false
+	}
+	oo := fed.SafeOps()
+	if st.ops != nil {
+		st.ops(&oo)
+	}
+	op := fed.GenOp(rr, mr.Schema, data, "query", oo)
+	if op == nil {
+		return coreCase{}, false
+	}
+	return coreCase{Query: op.Query, Vars: op.Variables, OpName: op.OpName, Kind: "query", Features: op.Features, Fed: &fedDump{Spec: spec, Data: data}}, true
+}
+
+// pinWitness writes the first witness of a class into corpus/<prop>/<class>.json when VERIF_PIN is
+// set (a maintenance action, never part of a check run).
+func pinWitness(prop, class string, cs coreCase) {
+	if os.Getenv("VERIF_PIN") == "" || len(cs.Query) > 400 {
+		return
+	}
+	dir := os.Getenv("VERIF_DIR")
+	if dir == "" {
+		dir = "."
+	}
+	path := filepath.Join(dir, "corpus", prop, class+".json")
+	if _, err := os.Stat(path); err == nil {
+		return
+	}
+	os.MkdirAll(filepath.Dir(path), 0o755)
+	b, _ := json.MarshalIndent(map[string]interface{}{"note": "pinned witness of open finding " + class, "case": cs}, "", " ")
+	os.WriteFile(path, b, 0o644)
 }
 
 // c01Corpus: pinned witnesses of repaired defects (seed-independent federations).
